@@ -1,16 +1,36 @@
 #!/bin/sh
-# run every registered check of one tier against /repo, sequentially; one summary line each
-# usage: tools/runall.sh [quick|thorough] [Cnn ...]
+# run every registered check of one tier against /repo; one summary line each
+# usage: tools/runall.sh [-j N] [quick|thorough] [Cnn ...]      (N checks at a time, default 1; logs in /tmp/verif-runall)
 cd "$(dirname "$0")/.." || exit 2
+jobs=1
+if [ "$1" = "-j" ]; then jobs=$2; shift 2; fi
 tier=${1:-quick}; [ $# -gt 0 ] && shift
 ids=${*:-C01 C02 C03 C04 C05 C06 C07 C08 C09 C10 C11 C12 C13 C14 C15 C16 C17 C18 C19 C20}
 mkdir -p /tmp/verif-runall
-bad=0
-for c in $ids; do
-  s=$(date +%s)
+one() {
+  c=$1; s=$(date +%s)
   ./check "$c" --tier "$tier" > /tmp/verif-runall/$c.$tier.log 2>&1; rc=$?
   e=$(date +%s)
   echo "$c $tier rc=$rc $((e-s))s $(tail -1 /tmp/verif-runall/$c.$tier.log | cut -c1-160)"
-  [ $rc -ne 0 ] && bad=1
+  return $rc
+}
+if [ "$jobs" -le 1 ]; then
+  bad=0
+  for c in $ids; do one "$c" || bad=1; done
+  exit $bad
+fi
+# parallel: the long checks first
+order=""
+for c in C03 C01 C02 C05 C04 C12 C10 C17 C18 C06 C07 C08 C09 C11 C13 C14 C15 C16 C19 C20; do
+  case " $ids " in *" $c "*) order="$order $c";; esac
 done
+out=$(mktemp)
+for c in $order; do echo "$c"; done | xargs -P "$jobs" -I{} sh -c '
+  c={}; s=$(date +%s)
+  ./check "$c" --tier '"$tier"' > /tmp/verif-runall/$c.'"$tier"'.log 2>&1; rc=$?
+  e=$(date +%s)
+  echo "$c '"$tier"' rc=$rc $((e-s))s $(tail -1 /tmp/verif-runall/$c.'"$tier"'.log | cut -c1-160)"' | tee "$out"
+bad=0
+grep -q "rc=[12]" "$out" && bad=1
+rm -f "$out"
 exit $bad
